@@ -13,6 +13,8 @@ package tree
 //@ ghost node.owner *btree[K, V]
 //@ ghost node.height int
 //@ ghost node.pidx int
+//@ ghost node.sub set[K]
+//@ ghost btree.val gmap[K]V
 
 // ---- structural invariant (C03), with one node `exc` allowed to be one key short ----
 // t.nodes is the set of nodes linked into t; x.owner names the tree for functions that only get a node.
@@ -43,6 +45,23 @@ package tree
 //@ pred sameShape(t) = t.root == old(t.root) && t.nodes == old(t.nodes) && t.dead == old(t.dead)
 //@   && (forall c *node[K, V] {c.n} :: c.n == old(c.n))
 //@   && (forall c *node[K, V], j int {c.keys[j]} :: 0 <= j && j < 15 ==> c.keys[j] == old(c.keys[j]))
+
+// ---- ordering invariant (C01): x.sub is the set of keys stored in the subtree of x, t.val the value stored with each key ----
+// The comparator is assumed to be a strict weak order given as a three-way compare:
+//@ pred swo(t) = (forall a K {t.compare(a, a)} :: t.compare(a, a) == 0)
+//@   && (forall a K, b K {t.compare(a, b)} :: (t.compare(a, b) < 0 <==> t.compare(b, a) > 0) && (t.compare(a, b) == 0 <==> t.compare(b, a) == 0))
+//@   && (forall a K, b K, c K {t.compare(a, b), t.compare(b, c)} :: (t.compare(a, b) <= 0 && t.compare(b, c) <= 0 ==> t.compare(a, c) <= 0)
+//@        && (t.compare(a, b) < 0 && t.compare(b, c) <= 0 ==> t.compare(a, c) < 0) && (t.compare(a, b) <= 0 && t.compare(b, c) < 0 ==> t.compare(a, c) < 0))
+//@ pred ordOK(t) =
+//@      (forall x *node[K, V], i int, j int {x.keys[i], x.keys[j]} :: t.nodes[x] && 0 <= i && i < j && j < x.n ==> t.compare(x.keys[i], x.keys[j]) < 0)
+//@   && (forall x *node[K, V], i int {x.keys[i]} :: t.nodes[x] && 0 <= i && i < x.n ==> x.sub[x.keys[i]] && t.val[x.keys[i]] == x.values[i])
+//@   && (forall x *node[K, V], j int, kk K {x.children[j].sub[kk]} :: t.nodes[x] && x.height > 0 && 0 <= j && j <= x.n && x.children[j].sub[kk] ==>
+//@        x.sub[kk] && (j < x.n ==> t.compare(kk, x.keys[j]) < 0) && (j > 0 ==> t.compare(x.keys[j-1], kk) < 0))
+//@   && (forall x *node[K, V], kk K, j int {x.sub[kk], hint(j)} :: t.nodes[x] && x.sub[kk] && 0 <= j && j <= x.n
+//@        && (j > 0 ==> t.compare(x.keys[j-1], kk) < 0) && (j < x.n ==> t.compare(kk, x.keys[j]) < 0) ==> x.height > 0 && x.children[j].sub[kk])
+//@   && (forall x *node[K, V], kk K, i int {x.sub[kk], x.keys[i]} :: t.nodes[x] && x.sub[kk] && 0 <= i && i < x.n && t.compare(kk, x.keys[i]) == 0 ==> kk == x.keys[i])
+//@ pred mapOK(t) = structOK(t, nil, nil) && swo(t) && ordOK(t)
+// the abstract map: domain t.root.sub, values t.val
 
 // ---- array primitives ----
 
@@ -110,20 +129,32 @@ package tree
 //@   ensures result == t.size
 
 //@ func btree.Get
-//@   props C03
+//@   props C01 C03
 //@   requires structOK(t, nil, nil)
 //@   ghostinit lv := 0
 //@   after call searchNode[0]: ghost lv := lv + 1
 //@   loop 0: invariant (curr == nil || t.nodes[curr]) && 0 <= lv && (curr != nil ==> lv + curr.height == t.root.height) && (curr == nil ==> lv <= t.root.height + 1)
 //@   ensures lv <= t.root.height + 1
+//@   requires C01: swo(t) && ordOK(t)
+//@   after call searchNode[0]: assert hint(callresult0)
+//@   loop 0: invariant C01: forall kk K {t.root.sub[kk]} :: t.root.sub[kk] && t.compare(k, kk) == 0 ==> curr != nil && curr.sub[kk]
+//@   loop 0: invariant C01: curr != nil ==> (forall kk K {curr.sub[kk]} :: curr.sub[kk] ==> t.root.sub[kk])
+//@   ensures C01: forall kk K {t.root.sub[kk]} :: t.root.sub[kk] && t.compare(k, kk) == 0 ==> result == t.val[kk]
+//@   ensures C01: (forall kk K {t.root.sub[kk]} :: t.root.sub[kk] ==> t.compare(k, kk) != 0) ==> result == zero(V)
 
 //@ func btree.Contains
-//@   props C03
+//@   props C01 C03
 //@   requires structOK(t, nil, nil)
 //@   ghostinit lv := 0
 //@   after call searchNode[0]: ghost lv := lv + 1
 //@   loop 0: invariant (curr == nil || t.nodes[curr]) && 0 <= lv && (curr != nil ==> lv + curr.height == t.root.height) && (curr == nil ==> lv <= t.root.height + 1)
 //@   ensures lv <= t.root.height + 1
+//@   requires C01: swo(t) && ordOK(t)
+//@   after call searchNode[0]: assert hint(callresult0)
+//@   loop 0: invariant C01: forall kk K {t.root.sub[kk]} :: t.root.sub[kk] && t.compare(k, kk) == 0 ==> curr != nil && curr.sub[kk]
+//@   loop 0: invariant C01: curr != nil ==> (forall kk K {curr.sub[kk]} :: curr.sub[kk] ==> t.root.sub[kk])
+//@   ensures C01: result ==> (exists kk K :: t.root.sub[kk] && t.compare(k, kk) == 0)
+//@   ensures C01: !result ==> (forall kk K {t.root.sub[kk]} :: t.root.sub[kk] ==> t.compare(k, kk) != 0)
 
 //@ func btree.First
 //@   props C03
